@@ -15,14 +15,16 @@ EXPLANATION = (
 
 
 def run(e, R, tier):
-    S.r_shutdown_api(e, R)
-    S.r_shutting_down_table(e, R)
-    L.r_mgr_exit(e, R)
-    S.r_shutdown_seq(e, R)
-    S.r_exit_handshake(e, R)
-    S.r_no_strong_ref(e, R)
-    S.r_atexit(e, R)
-    L.r_wake_lock(e, R)
-    L.r_nulled(e, R)
-    L.r_mgr_self(e, R)
+    R.run_rules(e, [
+        S.r_shutdown_api,
+        S.r_shutting_down_table,
+        L.r_mgr_exit,
+        S.r_shutdown_seq,
+        S.r_exit_handshake,
+        S.r_no_strong_ref,
+        S.r_atexit,
+        L.r_wake_lock,
+        L.r_nulled,
+        L.r_mgr_self,
+    ])
     R.trust("threading._register_atexit hooks run before non-daemon threads are joined; weakref callbacks run when the referent dies")
